@@ -205,7 +205,13 @@ def run(tier):
             if st.kind == "select_into" and d not in SELECT_INTO_DIALECTS:
                 continue  # elsewhere SELECT ... INTO assigns variables / writes files: not the core statement
             cases.append({"sql": sql, "dialect": d, "want": []})
-            meta.append((key, st, exp))
+            meta.append((key, st, exp, None))
+        # the same statement under a configured default schema (scoped override): unqualified names are completed, local names stay local
+        if len(cases) % 7 == 0 and st.kind not in ("copy",):
+            d0 = ds[0]
+            if common.is_core_for(d0, exp["tags"]) and not (st.kind == "select_into" and d0 not in SELECT_INTO_DIALECTS):
+                cases.append({"sql": sql, "dialect": d0, "want": [], "config": {"DEFAULT_SCHEMA": "zs_d"}})
+                meta.append((key, st, sqlgen.expected(st, "zs_d"), "zs_d"))
     for k in ("statements_compared", "extractors_seen"):
         run_.need(k)
     with Pool() as pool:
@@ -214,8 +220,8 @@ def run(tier):
     extractors = set()
     tagcov = {}
     rejected = {}
-    for case, (key, st, exp), (s, r) in zip(cases, meta, recs):
-        b = {"sql": case["sql"], "dialect": case["dialect"], "tags": [t for t in exp["tags"] if t.startswith(("stmt.", "from.", "where.", "select.", "having.", "setop.", "with.", "update.", "merge."))]}
+    for case, (key, st, exp, dsch), (s, r) in zip(cases, meta, recs):
+        b = {"sql": case["sql"], "dialect": case["dialect"], **({"config": case["config"]} if case.get("config") else {}), "tags": [t for t in exp["tags"] if t.startswith(("stmt.", "from.", "where.", "select.", "having.", "setop.", "with.", "update.", "merge."))]}
         if not run_.pool_status(s, r, b):
             run_.case()
             continue
@@ -240,7 +246,7 @@ def run(tier):
         for x in r.get("dispatch", []):
             extractors.add(x[0])
         nontrivial = bool(exp["read"] or exp["write"] or st.kind in sqlgen.Stmt.NO_LINEAGE)
-        run_.case(evidence.sha((case["sql"], d)), nontrivial=nontrivial,
+        run_.case(evidence.sha((case["sql"], d, case.get("config"))), nontrivial=nontrivial,
                   sample={"sql": case["sql"], "dialect": d, "expected_read": exp["read"], "expected_write": exp["write"]} if len(run_.samples) < 5 and len(exp["read"]) > 2 else None)
         run_.observe("statements_compared")
         for t in exp["tags"]:
@@ -262,7 +268,7 @@ def run(tier):
         # the public views must agree with the per-statement facts even under a known finding
         views_consistent = set(r["source"]) | set(r["target"]) == set(obs_read) | set(obs_write) and set(r["target"]) == set(obs_write)
         if views_consistent:
-            ids = classify(st, d, exp, obs_read, obs_write)
+            ids = classify(st, d, exp, obs_read, obs_write, dsch)
             if ids and all(run_.kf_listed(i) for i in ids):
                 kfid = ids[0]
                 for extra_id in ids[1:]:
